@@ -160,12 +160,6 @@ def check_filter_and_literal(rec, lab, name, finder, s, case):
                 rec.violation("match_raised", c, repr(e))
     if not forms or not base:
         return
-    if name.startswith("all"):
-        for t, f in forms:
-            F = lab.allmodel_of(name).finder_for(t, f)
-            if isinstance(F, lab.allmodel.FIC):
-                rec.unspec("FindInAll_constant_backed_level")
-                return
     # (4) filter on a key every searched type has and leaves as '*'
     keysets = []
     for t, f in forms:
